@@ -48,7 +48,18 @@ fn with<R>(f: impl FnOnce(&mut Reg) -> R) -> R {
 /// Start a new case: forget everything.
 pub fn reset() {
     with(|r| {
-        *r = Reg::default();
+        // keep (and pre-reserve) the buffers so that a case running inside a recorded allocator window
+        // does not see the registry's own allocations
+        let mut states = std::mem::take(&mut r.states);
+        let mut drop_log = std::mem::take(&mut r.drop_log);
+        let mut violations = std::mem::take(&mut r.violations);
+        states.clear();
+        drop_log.clear();
+        violations.clear();
+        states.reserve(16384);
+        drop_log.reserve(16384);
+        violations.reserve(40);
+        *r = Reg { states, drop_log, violations, ..Reg::default() };
     });
 }
 
@@ -546,4 +557,25 @@ peek_owned!(Tracked, TrackedZst, u32, u8, u64, [u64; 3], (), (u8, u16), String);
 
 pub fn pk<X: Peek>(x: &X) -> u32 {
     x.peek()
+}
+
+/// zero-sized because of its length, not because of its element type
+pub type ZeroLenArr = generic_array::GenericArray<u32, generic_array::typenum::U0>;
+impl Elem for ZeroLenArr {
+    const KIND: &'static str = "GenericArray<u32,U0>";
+    const NEEDS_DROP: bool = false;
+    fn mk(_: u32) -> Self {
+        Default::default()
+    }
+    fn get(&self) -> u32 {
+        0
+    }
+    fn norm(_: u32) -> u32 {
+        0
+    }
+}
+impl Peek for ZeroLenArr {
+    fn peek(&self) -> u32 {
+        0
+    }
 }
